@@ -350,6 +350,53 @@ def c14_traces(run, tier, seed):
     run.sample(dict(trace_options=cli_args(traces[0]["ops"]), observed=traces[0]["obs"], validated_by="TLC IniDocTrace"))
 
 
+def potable_cli(run):
+    """spec/Potable.tla: every argument combination of the command line on the real main()"""
+    res = tlc.run("Potable", "Potable_current.cfg", env={"EMIT": "1"}, coverage=True, keep=True, timeout=600)
+    try:
+        if res.violated:
+            run.machinery("TLC: %s violated on Potable_current" % res.violated)
+            return
+        run.add_tlc("Potable_current", res)
+        cases = tlc.read_ndjson(os.path.join(res.outdir, "cli.ndjson"))
+    finally:
+        tlc.cleanup(res)
+    valid = "[Tabulation]\ntarget : LAMMPS\nnr : 5\ncutoff : 2.0\n\n[Pair]\nAl-Cu : as.buck 1000.0 0.3 32.0\nCu-Cu : as.zero\n"
+    malformed = valid.replace("as.zero", "as.nosuchform 1 2")
+    d = tempfile.mkdtemp(prefix="verif-cli-")
+    try:
+        for c in cases:
+            a, want = c["args"], c["final"]
+            inp, outp = os.path.join(d, "in.ini"), os.path.join(d, "out.dat")
+            with open(inp, "w") as f:
+                f.write(valid if a["file"] == "valid" else malformed)
+            if os.path.exists(outp):
+                os.remove(outp)
+            args = [inp] + ([outp] if a["out"] == "given" else [])
+            args += {"none": [], "list": ["--list-items"], "labels": ["--list-item-labels"], "value": ["--item-value", "Pair:Al-Cu"],
+                     "value-missing": ["--item-value", "Pair:Fe-Fe"], "list+value": ["--list-items", "--item-value", "Pair:Al-Cu"]}[a["query"]]
+            args += {"none": [], "include": ["--include-species", "Al", "Cu"], "exclude": ["--exclude-species", "Fe"],
+                     "both": ["--include-species", "Al", "--exclude-species", "Cu"]}[a["filter"]]
+            args += {"none": [], "valid": ["-e", "Tabulation:nr=6"], "missing": ["-e", "Tabulation:dr=0.1"]}[a["edit"]]
+            try:
+                status, so, se = run_cli(args)
+            except Exception as e:          # an exception leaving main() is what a user sees as a traceback: exit status 1
+                status, so, se = 1, "", "%s: %s" % (type(e).__name__, e)
+            run.evaluations += 1
+            run.replayed += 1
+            run.distinct("cli:" + json.dumps(a, sort_keys=True))
+            kind = "" if not so.strip() else ("list" if "Pair:Al-Cu=" in so else "labels" if "Pair:Al-Cu" in so else "value" if "as.buck" in so else "other")
+            exists = os.path.exists(outp) and os.path.getsize(outp) > 0
+            got = dict(status=status, stdout=kind, outfile="table" if exists else "untouched")
+            if got != want:
+                run.violation(dict(engine="inidoc", clause="cli-dispatch", route="cli", whitespace_key=False, theme="cli"),
+                              "[cli-dispatch] potable %s: exit status %s, stdout %r, output file %s; the specification says status %s, stdout %r, output %s (%s)" % (
+                                  " ".join(args[1:]), got["status"], got["stdout"], got["outfile"], want["status"], want["stdout"], want["outfile"], se.strip().splitlines()[-1][:120] if se.strip() else ""),
+                              dict(args=a))
+    finally:
+        shutil.rmtree(d, ignore_errors=True)
+
+
 def main_c14(tier, seed):
     global _CASES
     import multiprocessing as mp
@@ -405,6 +452,7 @@ def main_c14(tier, seed):
                     run.violation(dict(engine="inidoc", clause=clause, route=route, whitespace_key=ws_used, theme=TH.name), "[%s] %s/%s: %s" % (clause, TH.name, route, msg),
                                   dict(case=case, base=render_file(case["file"]), args=cli_args(case["ops"])))
             c14_traces(run, tier, seed)
+            potable_cli(run)
             run.rule = "cases = base file x option sequence (TLC) x {CLI, ConfigParser API} + listing queries; non-trivial = at least one option; distinct by (file, options)"
     except tlc.TLCError as e:
         run.machinery(str(e))
